@@ -25,6 +25,7 @@ func init() {
 			"T9 the page loops of the SEV measurement run only after the address-range/alignment check returned nil, and that check returns nil only behind every one of its tests (no bypassing return). " +
 			"T10 sentinel index: the result of a bytes/strings/slices Index-family search (−1 = not found) used as an index, slice bound or allocation size needs a dominating sign test of that very value. T11 x[len(x)−k] / x[:len(x)−k] needs a dominating condition on that very slice value establishing len(x) ≥ k (one named suppression with reason in C07). T12 +,−,*,<< on a decoded operand carried out in fewer bits than the integer type its result is then converted to needs a dominating upper bound of the operand. T13 (ESP) a []byte sliced at bounds that move with a loop counter, in a loop that runs up to a value not computed from the buffer's length, is reached only on paths where executed checks relate that value to the buffer length through some chain of comparisons (decides that a relating chain exists, not that it is arithmetically sufficient). " +
 			"T15 loop progress: every loop of W is an iterator loop, a counted loop (an integer loop variable moved strictly on every back edge and compared in an exit test), a consumption loop (decreased on every back edge by a decoded amount that a dominating check makes positive: the GUID-table walk), or the one sweep loop (unacceptedMemRanges: a back edge that keeps the cursor lies behind two non-emptiness tests and two failed ordering tests, which make the consumed intersection non-empty); any other loop shape is counted as unclassified in evidence and gets no verdict. " +
+			"T22 (= C18.R13, discarded errors) the error of a layout decoder is dropped only where the decoder fails on the length of its argument alone and is given exactly that many bytes. " +
 			"T21 a difference of two non-constant integers that is unsigned, or used as an index / slice bound / allocation size, is taken only where the subtrahend is known to be no larger than the minuend (dominating comparison of the same values, transitively, shifted form, by construction, helper postcondition, established by every caller, or — signed — every use behind diff ≥ 0); named value exceptions by package and operand shape. " +
 			"T20 an element of a package-level array taken at a non-constant index is bounded below the array length by the dominating comparisons of the index with constants. " +
 			"T16 every field decoded from the image (a field of an ovmf/abi structure) that bounds a slice of a []byte in package ovmf is upper-bounded somewhere in the package: a refusing comparison puts it on the smaller-or-equal side of something anchored in a length (len(x), a constant, another such field), or ties it by != to such a field. " +
@@ -54,6 +55,13 @@ func c08Roots(c *Ctx) []*ssa.Function {
 }
 
 func runC08(c *Ctx) {
+	// T22 = C18.R13 (discarded errors): the error of a decoder of the layout packages is thrown away only where the
+	// decoder fails on the length of its argument alone and is handed exactly that many bytes. A decoder that gains
+	// another way to refuse while a caller still drops its error hands a nil record to the analysis, which
+	// dereferences it.
+	c.borrow("T22/C18.", runC18, func(rule, construct string) bool {
+		return rule == "R13" && strings.Contains(construct, "discarded error")
+	})
 	roots := c08Roots(c)
 	if !c.S.Floor("T0", "firmware-analysis entry points resolved", 9, len(roots)) {
 		return
